@@ -42,10 +42,19 @@ def _exe(features):
     return dst
 
 
-def classify(msg):
+def classify(msg, event=None):
     m = PROP_OF_MONITOR.search(msg)
     if m:
         return m.group(1)
+    evn = (event or {}).get("ev", "") if isinstance(event, dict) else ""
+    if "member of a waitable set" in msg or "still has members" in msg:
+        return "C18"
+    if evn.startswith("future."):
+        return "C20"
+    if evn.startswith("stream."):
+        return "C19"
+    if evn.startswith("subtask.") or evn == "call":
+        return "C21"
     for k, p in TRAP_PROPS.items():
         if k in msg:
             return p
@@ -78,7 +87,7 @@ def run_all(tier):
         for mode, mx, sd in passes:
             tp = os.path.join(wd, f"trace_{feat or 'default'}_{mode}.ndjson")
             p = sh([exe, "run", sp, tp, "--mode", mode, "--max", str(mx), "--seed", str(sd)], timeout=3000)
-            if p.returncode != 0:
+            if p.returncode not in (0, 3):
                 raise ToolError(f"async-mock crashed (rc={p.returncode}) on feature set {feat!r} mode {mode}: {p.stderr[-400:]}")
             summary = json.loads(open(tp).readlines()[-1])
             results["runs"] += summary["runs"]
@@ -131,7 +140,7 @@ def run_property(pid, tier):
         if v["tag"] == "DRIFT":
             raise ToolError(f"mock host and CMHost.tla disagree about a trap: {v}")
         msg = v.get("what", "")
-        if classify(msg) != pid:
+        if classify(msg, v.get("event")) != pid:
             continue
         key = f"{v['tag'].lower()}:{msg[:120]}"
         out.violation(key, f"{msg} -- at event #{v.get('at')} {json.dumps(v.get('event'))[:300]} (feature {v['feature']!r}, {v['mode']})", v)
@@ -157,3 +166,41 @@ def run_property(pid, tier):
         "the transcription of the Component Model async rules in specs/rt/CMHost.tla",
         "tracer hook events (guarded by cfg bytecodealliance_wit_bindgen_verif)"], time.time() - t0, unlisted)
     return rc
+
+
+def selftest(pid):
+    """The binding must be able to fail: (1) delete the `join(w, 0)` before a cancel, (2) change a
+    reported count, (3) delete a host.transfer event -- each corrupted trace must be rejected."""
+    wd = workdir("ASYNC_self")
+    exe = _exe([])
+    scen = [s for s in families() if s["tag"] in ("swrite-yield-cancel/tracked", "swrite/u8")]
+    sp = os.path.join(wd, "s.ndjson")
+    write_ndjson(sp, scen)
+    tp = os.path.join(wd, "t.ndjson")
+    sh([exe, "run", sp, tp, "--mode", "dfs", "--max", "40"], check=True)
+    rows = read_ndjson(tp)
+
+    def rejected(rows2, name):
+        p2 = os.path.join(wd, f"t_{name}.ndjson")
+        write_ndjson(p2, rows2)
+        t = tlc("rt/Trace_Async", "rt/Trace_Async", workers=1, wd=wd, env={"TRACE": p2}, dfs=True)
+        return bool(t.tagged.get("BREACH") or t.tagged.get("HOSTTRAP") or t.tagged.get("DRIFT"))
+
+    ok = True
+    # (1) drop the join(w,0) that precedes a cancel
+    k = next(i for i, r in enumerate(rows) if r["ev"] == "stream.cancel-write")
+    j = max(i for i in range(k) if rows[i]["ev"] == "join" and rows[i]["s"] == 0)
+    ok &= rejected(rows[:j] + rows[j + 1:], "nojoin")
+    # (2) the user is told a different count
+    k = next(i for i, r in enumerate(rows) if r["ev"] == "user.result" and r["r"].get("res") == "complete" and r["r"]["n"] > 0)
+    r2 = json.loads(json.dumps(rows))
+    r2[k]["r"]["n"] -= 1
+    ok &= rejected(r2, "count")
+    # (3) a transfer the host made disappears
+    k = next(i for i, r in enumerate(rows) if r["ev"] == "host.transfer" and r["k"] > 0 and "during" in r)
+    ok &= rejected(rows[:k] + rows[k + 1:], "notransfer")
+    if not ok:
+        log(f"selftest {pid}: a corrupted trace was accepted")
+        return 2
+    log(f"selftest {pid} ok")
+    return 0
